@@ -709,7 +709,55 @@ def check_hidden_state(ctx, oid, qualnames, allow=()):
                 example="the same call repeated in one process after a call with other arguments / a failed call")
 
 
-def unguarded_raisers(fnode, safe_calls=("isinstance", "len", "type", "bool", "bytes", "callable")):
+def _delegated_predicate(prog, modname, fnode):
+    """A predicate that is nothing but `return factory(<constants>).method(<its own parameters>)` (or `return helper(<params>)`):
+    the function definitions it hands the question to -- [FunctionDef] -- when the hand-over itself cannot raise: the factory
+    only instantiates package classes that have no __init__, arguments are names / constants. None when it is not of that shape."""
+    import ast
+    body = [b for b in fnode.body if not (isinstance(b, ast.Expr) and isinstance(b.value, ast.Constant))]
+    if len(body) != 1 or not isinstance(body[0], ast.Return) or not isinstance(body[0].value, ast.Call):
+        return None
+    call = body[0].value
+    plain = lambda a: isinstance(a, (ast.Name, ast.Constant))  # noqa: E731
+    if not all(plain(a) for a in call.args) or not all(k.arg and plain(k.value) for k in call.keywords):
+        return None
+
+    def plain_class(name, mod):
+        r = prog.resolve_chain(mod, [name])
+        return r is not None and r[0] == "class" and prog.inherited_method(r[1], r[2], "__init__") is None
+
+    if isinstance(call.func, ast.Name):
+        r = prog.resolve_chain(modname, [call.func.id])
+        return [r[1].node] if r is not None and r[0] == "func" else None
+    if isinstance(call.func, ast.Attribute) and isinstance(call.func.value, ast.Call) and isinstance(call.func.value.func, ast.Name):
+        fac = call.func.value
+        if not all(plain(a) for a in fac.args) or not all(k.arg and plain(k.value) for k in fac.keywords):
+            return None
+        r = prog.resolve_chain(modname, [fac.func.id])
+        if r is None or r[0] != "func":
+            return None
+        for n in ast.walk(r[1].node):  # the factory: only `ClassName()` of classes without __init__, tests on its parameters
+            if isinstance(n, ast.Call) and not (isinstance(n.func, ast.Name) and not n.args and not n.keywords and plain_class(n.func.id, r[1].module.name)):
+                return None
+            if isinstance(n, (ast.Subscript, ast.BinOp, ast.Raise)):
+                return None
+        impls = [f.node for m in prog.modules.values() for meths in m.classes.values() for nm, f in meths.items() if nm == call.func.attr]
+        return impls or None
+    return None
+
+
+def unguarded_raisers(fnode, safe_calls=("isinstance", "len", "type", "bool", "bytes", "callable"), prog=None, modname=None):
+    if prog is not None and modname is not None:
+        to = _delegated_predicate(prog, modname, fnode)
+        if to is not None:
+            out_ = []
+            for nd in to:
+                out_ += unguarded_raisers(nd, safe_calls)
+            return out_
+    return _unguarded_raisers(fnode, safe_calls)
+
+
+def _unguarded_raisers(fnode, safe_calls=("isinstance", "len", "type", "bool", "bytes", "callable")):
     """In a predicate that owes an answer for EVERY input and keeps that promise with a catch-all handler: the expressions that
     are evaluated OUTSIDE any try statement with a catch-all handler and can raise on some input -- calls (other than a few
     total built-ins and logging), indexing with a non-slice subscript, division / modulo. Returns [(node, text)]."""
